@@ -506,17 +506,17 @@ TYPES = {
             ["0", "1", "5", "7", "None", "Auto", "3*2"], ["0", "1", "5", "7", "None", "Auto", "1+4", "05"],
             ["1.5", "x", "-5", "99", "1 2"]),
     "ints": (["ints", "ints(size=2)", "ints(size_min=1, size_max=3)", "ints(value_min=0)", "ints(allow_none_elements=True)"],
-             ["1 2", "1,2", "3", "None", "Auto"], ["1 2", "1,2", "2 1", "3", "None", "Auto", "1 None", "[1,2]"],
+             ["1 2", "1,2", "3", "None", "Auto"], ["1 2", "1,2", "2 1", "3", "None", "Auto", "1 None", "[1,2]", '""', "()"],
              ["x", "1 2 3 4", "-4 1", "1.5 2"]),
     "choice": (["choice"], ["x y z", "*x y z", "x *y z", "x y *z"],
                ["y", "*y", "x", "*z", "x *y", "*x y z", "None", "Auto", "X", "x y z"], ["w", "*w", "*x *y", "x+y"]),
     "mchoice": (["choice(multi=True)"], ["x y z", "*x y z", "*x *y z", "x *y *z"],
-                ["y", "*y", "x+y", "*x *z", "x *y", "*x y *z", "None", "Auto", "X+z", "x y z"], ["w", "*w", "x+w"]),
+                ["y", "*y", "x+y", "*x *z", "x *y", "*x y *z", "None", "Auto", "X+z", "x y z", "+y", "+x+z", "z+"], ["w", "*w", "x+w"]),
     "float": (["float", "float(value_min=0)", "float(value_max=10, allow_none=False)"],
               ["1.5", "2", "1e3", "None", "Auto", "0.1"], ["1.5", "2", "2.0", "1e3", "None", "Auto", "1/4", "0.10"],
               ["x", "-3", "1 2"]),
     "floats": (["floats", "floats(size=2)", "floats(value_min=0)"], ["1.5 2", "1,2", "None", "Auto"],
-               ["1.5 2", "1.50 2", "3", "None", "Auto", "1 2"], ["x", "1 2 3", "-1 1"]),
+               ["1.5 2", "1.50 2", "3", "None", "Auto", "1 2", '""'], ["x", "1 2 3", "-1 1"]),
 }
 PLAIN_TYPES = ["words", "str", "strings", "qstr", "path", "key", "bool", "int", "ints", "choice", "mchoice"]
 FLOAT_TYPES = ["float", "floats", "int", "str"]
